@@ -133,6 +133,7 @@ def run_compdec(sx, cfg, env):
 # strict_mode") behaves differently in the two copies.
 # ---------------------------------------------------------------------------
 def import_copy_b():
+    import catalogue.build  # noqa  (make sure copy A of the builder exists before it is shadowed)
     import importlib.abc
     import importlib.machinery
     import sys
@@ -167,6 +168,10 @@ def import_copy_b():
         for k in [k for k in sys.modules if mine(k)]:
             del sys.modules[k]
         sys.modules.update(saved)
+        # importing a submodule also rebinds the attribute of its parent package
+        import catalogue
+        if "catalogue.build" in saved:
+            catalogue.build = saved["catalogue.build"]
     assert mods_b["odxtools.exceptions"].strict_mode is False
     return build_b, mods_b
 
